@@ -1,6 +1,9 @@
 """C20 -- too few standards are reported; every determining set of standards
 solves."""
+import concurrent.futures
+
 import vlib
+from checks import aggregate
 from families import calflow
 
 
@@ -13,6 +16,13 @@ def body(c):
         c.cov["evaluations"] = 1
         c.cov["distinct_nontrivial"] = 1
         return
+    # "fewer equations than unknown error terms PLUS unknown standard
+    # parameters": the under-determined scenarios with unknown parameters
+    # (topology SHORT1 of SelfCal.tla) live in the C02 family; its run is
+    # repeated here on behalf of C20, concurrently
+    pool = concurrent.futures.ThreadPoolExecutor(1)
+    side = pool.submit(aggregate._run_member,
+                       ("C02", "C20", c.tier, c.work, c.seed))
     r = vlib.tlc_model_check("CalFlowMC.tla",
                              "CalFlowMC_%s.cfg" % c.tier, c.work,
                              workers=8, timeout=1500)
@@ -21,6 +31,20 @@ def body(c):
     for it in issues:
         c.issue(it)
     c.add_part("c20_histories", stats)
+    member, d, tail = side.result()
+    if d is None:
+        c.machinery_errors.append("C02 --as C20 produced no result:\n" + tail)
+    else:
+        for m in d["machinery_errors"]:
+            c.machinery_errors.append("C02: " + m)
+        for i in d["issues"]:
+            c.issue(vlib.Issue(i["props"], i["signature"], i["what"],
+                               replay=i["replay"]))
+        c.add_part("unknown-parameter under-determination via SelfCal (C02 run)", {
+            "events": d["cov"].get("evaluations", 0),
+            "episodes": d["cov"].get("traces_validated_against_impl", 0)})
+        stats["events"] += d["cov"].get("evaluations", 0)
+        stats["episodes"] += d["cov"].get("traces_validated_against_impl", 0)
     c.cov["traces_validated_against_impl"] = stats["episodes"]
     c.cov["evaluations"] = stats["events"]
     c.cov["distinct_nontrivial"] = stats["distinct_nontrivial"]
